@@ -128,6 +128,17 @@ func init() {
 			"after Fini: PollEvent returns nil at once by the C05 PollEvent contract and closed-channel semantics (assumed); 'further Screen calls do not panic' is not decided here"},
 	})
 	reg(&PropDef{
+		ID:    "C13",
+		Level: "proof",
+		Funcs: []string{"tcell.(*tScreen).drawCell", "tcell.(*tScreen).draw", "tcell.(*CellBuffer).Dirty", "tcell.(*CellBuffer).SetDirty", "tcell.(*CellBuffer).LockCell", "tcell.(*CellBuffer).UnlockCell",
+			"tcell.(*CellBuffer).SetContent", "tcell.(*CellBuffer).GetContent"},
+		Trusted: []string{"emission primitives (tScreen.TPuts, writeString, sendFgBg; terminfo TGoto/TParm/TColor): only their frame is assumed here (spec/trusted/emit.spec); what they emit is decided by C07/C15/C17",
+			"Tty.Write / io.Writer.Write report a count within bounds and touch no verified state (assumed)"},
+		Assume: []string{"drawCell is verified for calls on cells that are NOT dirty (unchanged, locked, or off the buffer): no output of any kind, no state change, width reported; the path that paints a dirty cell exceeds the verifier's path budget: its frame (only the cell itself and, for the auto-margin corner, its left neighbour change) and 'returns at least 1' are ASSUMED clauses",
+			"the whole-Show statement (no cell text at all when nothing changed; text only for changed cells and the listed neighbours) is the composition of: Dirty == specification predicate over the last-clean snapshot (C08), LockCell => not dirty, UnlockCell => dirty, SetContent with equal content leaves the cell clean (C08), drawCell silent on clean cells, draw calling drawCell only for screen cells and emitting no text itself; that composition is argued in DESIGN.md, not machine-checked",
+			"cell widths are non-negative (CellBuffer invariant; precondition)"},
+	})
+	reg(&PropDef{
 		ID:    "C11",
 		Level: "proof",
 		Funcs: []string{"tcell.(*tScreen).parseRune", "tcell.(*tScreen).parseFocus", "tcell.(*tScreen).parseFunctionKey", "tcell.(*tScreen).inputLoop", "tcell.(*tScreen).collectEventsFromInput"},
